@@ -1,4 +1,5 @@
 import MuduoVerif.Proofs.Timer
+import Mathlib.Data.List.Nodup
 /-! The structural invariant of the timer engine (`WF`): `timers_` and `activeTimers_` hold the same timers,
 every `Timer*` the queue can still reach is live, sequence numbers are bounded by `s_numCreated_`, and no step so far
 dereferenced a freed `Timer`.  `B` is the expiry batch `handleRead` is working on (empty outside). -/
@@ -19,25 +20,6 @@ theorem addsOf_append (l r : List Functor) : addsOf (l ++ r) = addsOf l ++ addsO
 /-- timers handed to the loop (`queueInLoop`) whose `addTimerInLoop` has not run yet -/
 def limbo (s : TQ) : List Addr := addsOf (s.running ++ s.pending)
 
-structure WF (s : TQ) (B : List (Time × Addr)) : Prop where
-  t_live : ∀ e ∈ s.timers, ∃ c, s.heap e.2 = some c ∧ c.exp = e.1 ∧ (e.2, c.seq) ∈ s.active
-  a_live : ∀ p ∈ s.active, ∃ c, s.heap p.1 = some c ∧ c.seq = p.2 ∧ (c.exp, p.1) ∈ s.timers
-  sorted : s.timers.Pairwise entryLt
-  b_live : ∀ e ∈ B, (s.heap e.2).isSome ∧ ∀ q, (e.2, q) ∉ s.active
-  b_nodup : (B.map (·.2)).Nodup
-  p_live : ∀ a ∈ limbo s, (s.heap a).isSome ∧ (∀ q, (a, q) ∉ s.active) ∧ a ∉ B.map (·.2)
-  p_nodup : (limbo s).Nodup
-  seq_le : ∀ a c, s.heap a = some c → c.seq ≤ s.numCreated
-  no_uaf : ∀ a, Ev.uaf a ∉ s.trace
-
-theorem WF.congr {s s' : TQ} {B : List (Time × Addr)} (h : WF s B) (hh : s'.heap = s.heap)
-    (ht : s'.timers = s.timers) (ha : s'.active = s.active) (hn : s'.numCreated = s.numCreated)
-    (hr : s'.running = s.running) (hp : s'.pending = s.pending) (hu : ∀ a, Ev.uaf a ∉ s'.trace) : WF s' B := by
-  have hl : limbo s' = limbo s := by simp [limbo, hr, hp]
-  exact ⟨by simpa [hh, ht, ha] using h.t_live, by simpa [hh, ht, ha] using h.a_live, by simpa [ht] using h.sorted,
-    by simpa [hh, ha] using h.b_live, h.b_nodup, by simpa [hl, hh, ha] using h.p_live, by simpa [hl] using h.p_nodup,
-    by simpa [hh, hn] using h.seq_le, hu⟩
-
 /-! ### small facts -/
 
 theorem chk_live {s : TQ} {a : Addr} (h : (s.heap a).isSome) : chk s a = s := by simp [chk, h]
@@ -55,21 +37,19 @@ theorem mem_insEntry {e x : Time × Addr} {l : List (Time × Addr)} : x ∈ insE
 
 theorem entryLt_trans {a b c : Int × Nat} (h1 : entryLt a b) (h2 : entryLt b c) : entryLt a c := by
   obtain ⟨a1, a2⟩ := a; obtain ⟨b1, b2⟩ := b; obtain ⟨c1, c2⟩ := c
-  simp only [entryLt] at *
-  dsimp only at *
+  simp only [entryLt, Time, Addr] at *
   omega
 
 theorem entryLt_total {a b : Int × Nat} (h : ¬ entryLt a b) (hne : a ≠ b) : entryLt b a := by
   obtain ⟨a1, a2⟩ := a; obtain ⟨b1, b2⟩ := b
-  simp only [entryLt] at *
-  dsimp only at *
   have : ¬ (a1 = b1 ∧ a2 = b2) := by
     rintro ⟨rfl, rfl⟩; exact hne rfl
+  simp only [entryLt, Time, Addr] at *
   omega
 
 theorem entryLt_irrefl (a : Int × Nat) : ¬ entryLt a a := by
   obtain ⟨a1, a2⟩ := a
-  simp only [entryLt]; dsimp only; omega
+  simp only [entryLt, Time, Addr]; omega
 
 theorem pairwise_insEntry {e : Time × Addr} {l : List (Time × Addr)} (h : l.Pairwise entryLt)
     (hne : ∀ x ∈ l, x ≠ e) : (insEntry e l).Pairwise entryLt := by
@@ -91,5 +71,864 @@ theorem pairwise_insEntry {e : Time × Addr} {l : List (Time × Addr)} (h : l.Pa
       rcases mem_insEntry.1 hx with rfl | hx
       · exact entryLt_total hlt (fun h' => hne y (List.mem_cons_self) h'.symm)
       · exact h.1 x hx
+
+
+structure WFp (s : TQ) (B : List (Time × Addr)) (L : List Addr) : Prop where
+  t_live : ∀ e ∈ s.timers, ∃ c, s.heap e.2 = some c ∧ c.exp = e.1 ∧ (e.2, c.seq) ∈ s.active
+  a_live : ∀ p ∈ s.active, ∃ c, s.heap p.1 = some c ∧ c.seq = p.2 ∧ (c.exp, p.1) ∈ s.timers
+  sorted : s.timers.Pairwise entryLt
+  a_nodup : s.active.Nodup
+  b_live : ∀ e ∈ B, (∃ c, s.heap e.2 = some c ∧ c.exp = e.1) ∧ ∀ q, (e.2, q) ∉ s.active
+  b_nodup : (B.map (·.2)).Nodup
+  p_live : ∀ a ∈ L, (s.heap a).isSome ∧ (∀ q, (a, q) ∉ s.active) ∧ a ∉ B.map (·.2)
+  p_nodup : L.Nodup
+  owned : ∀ a c, s.heap a = some c → (a, c.seq) ∈ s.active ∨ a ∈ B.map (·.2) ∨ a ∈ L
+  seq_le : ∀ a c, s.heap a = some c → 0 < c.seq ∧ c.seq ≤ s.numCreated
+  seq_inj : ∀ a a' c c', s.heap a = some c → s.heap a' = some c' → c.seq = c'.seq → a = a'
+  addr_ok : ∀ a c, s.heap a = some c → 0 < a ∧ a < sentinelAddr
+  no_uaf : ∀ a, Ev.uaf a ∉ s.trace
+
+
+theorem WFp.congr {s s' : TQ} {B : List (Time × Addr)} {L : List Addr} (h : WFp s B L) (hh : s'.heap = s.heap)
+    (ht : s'.timers = s.timers) (ha : s'.active = s.active) (hn : s'.numCreated = s.numCreated)
+    (hu : ∀ a, Ev.uaf a ∉ s'.trace) : WFp s' B L := by
+  exact ⟨by simpa [hh, ht, ha] using h.t_live, by simpa [hh, ht, ha] using h.a_live, by simpa [ht] using h.sorted,
+    by simpa [ha] using h.a_nodup,
+    by simpa [hh, ha] using h.b_live, h.b_nodup, by simpa [hh, ha] using h.p_live, h.p_nodup,
+    by simpa [hh, ha] using h.owned,
+    by simpa [hh, hn] using h.seq_le, by simpa [hh] using h.seq_inj, by simpa [hh] using h.addr_ok, hu⟩
+
+theorem hset_same (h : Addr → Option Cell) (a : Addr) (c : Cell) : hset h a c a = some c := by simp [hset]
+theorem hset_other (h : Addr → Option Cell) {a x : Addr} (c : Cell) (hx : x ≠ a) : hset h a c x = h x := by simp [hset, hx]
+theorem hfree_same (h : Addr → Option Cell) (a : Addr) : hfree h a a = none := by simp [hfree]
+theorem hfree_other (h : Addr → Option Cell) {a x : Addr} (hx : x ≠ a) : hfree h a x = h x := by simp [hfree, hx]
+theorem hfree_some {h : Addr → Option Cell} {a x : Addr} {c : Cell} (hx : hfree h a x = some c) : x ≠ a ∧ h x = some c := by
+  unfold hfree at hx; split at hx
+  · cases hx
+  · exact ⟨by assumption, hx⟩
+
+/-- `insert`: into both sets -/
+def ins (s : TQ) (a : Addr) (c : Cell) : TQ :=
+  { s with timers := insEntry (c.exp, a) s.timers, active := (a, c.seq) :: s.active }
+
+variable {s : TQ} {B : List (Time × Addr)} {L : List Addr}
+
+theorem WFp.not_active_of_none (h : WFp s B L) {a : Addr} (hn : s.heap a = none) (q : Nat) : (a, q) ∉ s.active := by
+  intro hm
+  obtain ⟨c, h1, _⟩ := h.a_live _ hm
+  rw [hn] at h1; cases h1
+
+theorem WFp.ins {a : Addr} {c : Cell} (h : WFp s B (a :: L)) (hc : s.heap a = some c) : WFp (ins s a c) B L := by
+  have hp := h.p_live a (List.mem_cons_self)
+  have hna : ∀ q, (a, q) ∉ s.active := hp.2.1
+  have haB : a ∉ B.map (·.2) := hp.2.2
+  have hnd := List.nodup_cons.1 h.p_nodup
+  refine ⟨?_, ?_, ?_, ?_, ?_, h.b_nodup, ?_, hnd.2, ?_, h.seq_le, h.seq_inj, h.addr_ok, h.no_uaf⟩
+  · intro e he
+    rcases mem_insEntry.1 he with rfl | he
+    · exact ⟨c, hc, rfl, List.mem_cons_self⟩
+    · obtain ⟨c', h1, h2, h3⟩ := h.t_live e he
+      exact ⟨c', h1, h2, List.mem_cons_of_mem _ h3⟩
+  · intro p hp'
+    rcases List.mem_cons.1 hp' with rfl | hp'
+    · exact ⟨c, hc, rfl, mem_insEntry.2 (Or.inl rfl)⟩
+    · obtain ⟨c', h1, h2, h3⟩ := h.a_live p hp'
+      exact ⟨c', h1, h2, mem_insEntry.2 (Or.inr h3)⟩
+  · apply pairwise_insEntry h.sorted
+    intro x hx hxe
+    obtain ⟨c', h1, h2, h3⟩ := h.t_live x hx
+    subst hxe
+    exact hna _ h3
+  · exact List.nodup_cons.2 ⟨hna _, h.a_nodup⟩
+  · intro e he
+    obtain ⟨h1, h2⟩ := h.b_live e he
+    refine ⟨h1, ?_⟩
+    intro q hq
+    rcases List.mem_cons.1 hq with heq | hq
+    · have : e.2 = a := (Prod.mk.inj heq).1
+      exact haB (List.mem_map.2 ⟨e, he, this⟩)
+    · exact h2 q hq
+  · intro x hx
+    obtain ⟨h1, h2, h3⟩ := h.p_live x (List.mem_cons_of_mem _ hx)
+    refine ⟨h1, ?_, h3⟩
+    intro q hq
+    rcases List.mem_cons.1 hq with heq | hq
+    · have : x = a := (Prod.mk.inj heq).1
+      exact hnd.1 (this ▸ hx)
+    · exact h2 q hq
+  · intro x cx hx
+    rcases h.owned x cx hx with h1 | h1 | h1
+    · exact Or.inl (List.mem_cons_of_mem _ h1)
+    · exact Or.inr (Or.inl h1)
+    · rcases List.mem_cons.1 h1 with rfl | h1
+      · have hx : s.heap x = some cx := hx
+        rw [hc] at hx; cases hx; exact Or.inl List.mem_cons_self
+      · exact Or.inr (Or.inr h1)
+
+theorem WFp.alloc {a : Addr} {c : Cell} (h : WFp s B L) (hf : s.heap a = none) (ha : 0 < a ∧ a < sentinelAddr)
+    (hs : c.seq = s.numCreated + 1) :
+    WFp { s with heap := hset s.heap a c, numCreated := c.seq } B (a :: L) := by
+  have ne_of_live : ∀ {x : Addr} {cx : Cell}, s.heap x = some cx → x ≠ a := by
+    intro x cx hx hxa; rw [hxa, hf] at hx; cases hx
+  refine ⟨?_, ?_, h.sorted, h.a_nodup, ?_, h.b_nodup, ?_, ?_, ?_, ?_, ?_, ?_, h.no_uaf⟩
+  · intro e he
+    obtain ⟨c', h1, h2, h3⟩ := h.t_live e he
+    exact ⟨c', by show hset s.heap a c e.2 = _; rw [hset_other _ _ (ne_of_live h1)]; exact h1, h2, h3⟩
+  · intro p hp
+    obtain ⟨c', h1, h2, h3⟩ := h.a_live p hp
+    exact ⟨c', by show hset s.heap a c p.1 = _; rw [hset_other _ _ (ne_of_live h1)]; exact h1, h2, h3⟩
+  · intro e he
+    obtain ⟨⟨c', h1, h2⟩, h3⟩ := h.b_live e he
+    exact ⟨⟨c', by show hset s.heap a c e.2 = _; rw [hset_other _ _ (ne_of_live h1)]; exact h1, h2⟩, h3⟩
+  · intro x hx
+    rcases List.mem_cons.1 hx with rfl | hx
+    · refine ⟨by show (hset s.heap x c x).isSome = true; rw [hset_same]; rfl, h.not_active_of_none hf, ?_⟩
+      intro hm
+      obtain ⟨e, he, rfl⟩ := List.mem_map.1 hm
+      obtain ⟨⟨c', h1, _⟩, _⟩ := h.b_live e he
+      rw [hf] at h1; cases h1
+    · obtain ⟨h1, h2, h3⟩ := h.p_live x hx
+      refine ⟨?_, h2, h3⟩
+      show (hset s.heap a c x).isSome = true
+      unfold hset; split
+      · rfl
+      · exact h1
+  · refine List.nodup_cons.2 ⟨?_, h.p_nodup⟩
+    intro hm
+    have := (h.p_live a hm).1
+    rw [hf] at this; cases this
+  · intro x cx hx
+    by_cases hxa : x = a
+    · subst hxa; exact Or.inr (Or.inr List.mem_cons_self)
+    · have hx' : s.heap x = some cx := by rw [← hset_other s.heap c hxa]; exact hx
+      rcases h.owned x cx hx' with h1 | h1 | h1
+      · exact Or.inl h1
+      · exact Or.inr (Or.inl h1)
+      · exact Or.inr (Or.inr (List.mem_cons_of_mem _ h1))
+  · intro x cx hx
+    show 0 < cx.seq ∧ cx.seq ≤ c.seq
+    by_cases hxa : x = a
+    · subst hxa
+      have : some c = some cx := by rw [← hset_same s.heap x c]; exact hx
+      cases this; omega
+    · have hx' : s.heap x = some cx := by rw [← hset_other s.heap c hxa]; exact hx
+      have := h.seq_le x cx hx'; omega
+  · intro x x' cx cx' hx hx' he
+    by_cases hxa : x = a <;> by_cases hxa' : x' = a
+    · rw [hxa, hxa']
+    · subst hxa
+      have e1 : some c = some cx := by rw [← hset_same s.heap x c]; exact hx
+      have e2 : s.heap x' = some cx' := by rw [← hset_other s.heap c hxa']; exact hx'
+      cases e1
+      have := h.seq_le x' cx' e2; omega
+    · subst hxa'
+      have e1 : some c = some cx' := by rw [← hset_same s.heap x' c]; exact hx'
+      have e2 : s.heap x = some cx := by rw [← hset_other s.heap c hxa]; exact hx
+      cases e1
+      have := h.seq_le x cx e2; omega
+    · have e1 : s.heap x = some cx := by rw [← hset_other s.heap c hxa]; exact hx
+      have e2 : s.heap x' = some cx' := by rw [← hset_other s.heap c hxa']; exact hx'
+      exact h.seq_inj x x' cx cx' e1 e2 he
+  · intro x cx hx
+    by_cases hxa : x = a
+    · subst hxa; exact ha
+    · have hx' : s.heap x = some cx := by rw [← hset_other s.heap c hxa]; exact hx
+      exact h.addr_ok x cx hx'
+
+
+theorem WFp.relabel {L' : List Addr} (h : WFp s B L) (hm : ∀ x, x ∈ L' ↔ x ∈ L) (hn : L'.Nodup) : WFp s B L' :=
+  ⟨h.t_live, h.a_live, h.sorted, h.a_nodup, h.b_live, h.b_nodup, fun a ha => h.p_live a ((hm a).1 ha), hn,
+    fun a c hc => by
+      rcases h.owned a c hc with h1 | h1 | h1
+      · exact Or.inl h1
+      · exact Or.inr (Or.inl h1)
+      · exact Or.inr (Or.inr ((hm a).2 h1)),
+    h.seq_le, h.seq_inj, h.addr_ok, h.no_uaf⟩
+
+/-- the head of the batch is taken out of it (its cell updated, same sequence number) and floats -/
+theorem WFp.b_to_l {e : Time × Addr} {c c' : Cell} (h : WFp s (e :: B) L) (hc : s.heap e.2 = some c)
+    (hs : c'.seq = c.seq) : WFp { s with heap := hset s.heap e.2 c' } B (e.2 :: L) := by
+  have hbe := h.b_live e List.mem_cons_self
+  have hnd : e.2 ∉ B.map (·.2) ∧ (B.map (·.2)).Nodup := List.nodup_cons.1 h.b_nodup
+  have heL : e.2 ∉ L := fun hm => (h.p_live _ hm).2.2 (by simp)
+  have ne_act : ∀ {x : Addr} {q : Nat}, (x, q) ∈ s.active → x ≠ e.2 := by
+    intro x q hm hx; subst hx; exact hbe.2 q hm
+  refine ⟨?_, ?_, h.sorted, h.a_nodup, ?_, hnd.2, ?_, List.nodup_cons.2 ⟨heL, h.p_nodup⟩, ?_, ?_, ?_, ?_, h.no_uaf⟩
+  · intro x hx
+    obtain ⟨cx, h1, h2, h3⟩ := h.t_live x hx
+    exact ⟨cx, by show hset s.heap e.2 c' x.2 = _; rw [hset_other _ _ (ne_act h3)]; exact h1, h2, h3⟩
+  · intro p hp
+    obtain ⟨cx, h1, h2, h3⟩ := h.a_live p hp
+    exact ⟨cx, by show hset s.heap e.2 c' p.1 = _; rw [hset_other _ _ (ne_act hp)]; exact h1, h2, h3⟩
+  · intro x hx
+    obtain ⟨⟨cx, h1, h2⟩, h3⟩ := h.b_live x (List.mem_cons_of_mem _ hx)
+    have : x.2 ≠ e.2 := fun hh => hnd.1 (List.mem_map.2 ⟨x, hx, hh⟩)
+    exact ⟨⟨cx, by show hset s.heap e.2 c' x.2 = _; rw [hset_other _ _ this]; exact h1, h2⟩, h3⟩
+  · intro x hx
+    rcases List.mem_cons.1 hx with rfl | hx
+    · exact ⟨by show (hset s.heap e.2 c' e.2).isSome = true; rw [hset_same]; rfl, hbe.2, hnd.1⟩
+    · obtain ⟨h1, h2, h3⟩ := h.p_live x hx
+      refine ⟨?_, h2, fun hm => h3 (List.mem_cons_of_mem _ hm)⟩
+      show (hset s.heap e.2 c' x).isSome = true
+      unfold hset; split
+      · rfl
+      · exact h1
+  · intro x cx hx
+    by_cases hxa : x = e.2
+    · subst hxa; exact Or.inr (Or.inr List.mem_cons_self)
+    · have hx' : s.heap x = some cx := by rw [← hset_other s.heap c' hxa]; exact hx
+      rcases h.owned x cx hx' with h1 | h1 | h1
+      · exact Or.inl h1
+      · rcases List.mem_cons.1 h1 with h1 | h1
+        · exact absurd h1 hxa
+        · exact Or.inr (Or.inl h1)
+      · exact Or.inr (Or.inr (List.mem_cons_of_mem _ h1))
+  · intro x cx hx
+    by_cases hxa : x = e.2
+    · subst hxa
+      have : some c' = some cx := by rw [← hset_same s.heap e.2 c']; exact hx
+      cases this; rw [hs]; exact h.seq_le _ _ hc
+    · have hx' : s.heap x = some cx := by rw [← hset_other s.heap c' hxa]; exact hx
+      exact h.seq_le x cx hx'
+  · intro x x' cx cx' hx hx' he
+    have get : ∀ {y : Addr} {cy : Cell}, hset s.heap e.2 c' y = some cy → ∃ cz, s.heap y = some cz ∧ cz.seq = cy.seq := by
+      intro y cy hy
+      by_cases hya : y = e.2
+      · subst hya
+        have : some c' = some cy := by rw [← hset_same s.heap e.2 c']; exact hy
+        cases this; exact ⟨c, hc, hs.symm⟩
+      · exact ⟨cy, by rw [← hset_other s.heap c' hya]; exact hy, rfl⟩
+    obtain ⟨cz, h1, h2⟩ := get hx
+    obtain ⟨cz', h1', h2'⟩ := get hx'
+    exact h.seq_inj x x' cz cz' h1 h1' (by rw [h2, h2', he])
+  · intro x cx hx
+    by_cases hxa : x = e.2
+    · subst hxa; exact h.addr_ok _ _ hc
+    · have hx' : s.heap x = some cx := by rw [← hset_other s.heap c' hxa]; exact hx
+      exact h.addr_ok x cx hx'
+
+/-- the head of the batch is deleted -/
+theorem WFp.drop {e : Time × Addr} (h : WFp s (e :: B) L) : WFp { s with heap := hfree s.heap e.2 } B L := by
+  have hbe := h.b_live e List.mem_cons_self
+  have hnd : e.2 ∉ B.map (·.2) ∧ (B.map (·.2)).Nodup := List.nodup_cons.1 h.b_nodup
+  have ne_act : ∀ {x : Addr} {q : Nat}, (x, q) ∈ s.active → x ≠ e.2 := by
+    intro x q hm hx; subst hx; exact hbe.2 q hm
+  refine ⟨?_, ?_, h.sorted, h.a_nodup, ?_, hnd.2, ?_, h.p_nodup, ?_, ?_, ?_, ?_, h.no_uaf⟩
+  · intro x hx
+    obtain ⟨cx, h1, h2, h3⟩ := h.t_live x hx
+    exact ⟨cx, by show hfree s.heap e.2 x.2 = _; rw [hfree_other _ (ne_act h3)]; exact h1, h2, h3⟩
+  · intro p hp
+    obtain ⟨cx, h1, h2, h3⟩ := h.a_live p hp
+    exact ⟨cx, by show hfree s.heap e.2 p.1 = _; rw [hfree_other _ (ne_act hp)]; exact h1, h2, h3⟩
+  · intro x hx
+    obtain ⟨⟨cx, h1, h2⟩, h3⟩ := h.b_live x (List.mem_cons_of_mem _ hx)
+    have : x.2 ≠ e.2 := fun hh => hnd.1 (List.mem_map.2 ⟨x, hx, hh⟩)
+    exact ⟨⟨cx, by show hfree s.heap e.2 x.2 = _; rw [hfree_other _ this]; exact h1, h2⟩, h3⟩
+  · intro x hx
+    obtain ⟨h1, h2, h3⟩ := h.p_live x hx
+    have : x ≠ e.2 := fun hh => h3 (by simp [hh])
+    refine ⟨?_, h2, fun hm => h3 (List.mem_cons_of_mem _ hm)⟩
+    show (hfree s.heap e.2 x).isSome = true
+    rw [hfree_other _ this]; exact h1
+  · intro x cx hx
+    obtain ⟨hxa, hx'⟩ := hfree_some hx
+    rcases h.owned x cx hx' with h1 | h1 | h1
+    · exact Or.inl h1
+    · rcases List.mem_cons.1 h1 with h1 | h1
+      · exact absurd h1 hxa
+      · exact Or.inr (Or.inl h1)
+    · exact Or.inr (Or.inr h1)
+  · intro x cx hx; exact h.seq_le x cx (hfree_some hx).2
+  · intro x x' cx cx' hx hx' he; exact h.seq_inj x x' cx cx' (hfree_some hx).2 (hfree_some hx').2 he
+  · intro x cx hx; exact h.addr_ok x cx (hfree_some hx).2
+
+/-- `cancelInLoop` found the pair: erase from both sets, delete -/
+theorem WFp.erase {a : Addr} {q : Nat} {c : Cell} (h : WFp s B L) (hm : (a, q) ∈ s.active) (hc : s.heap a = some c) :
+    WFp { s with timers := s.timers.filter (fun e => e ≠ (c.exp, a)),
+                 active := s.active.filter (fun p => p ≠ (a, q)),
+                 heap := hfree s.heap a } B L := by
+  have hq : c.seq = q := by
+    obtain ⟨c', h1, h2, _⟩ := h.a_live _ hm
+    rw [hc] at h1; cases h1; exact h2
+  refine ⟨?_, ?_, h.sorted.filter _, h.a_nodup.filter _, ?_, h.b_nodup, ?_, h.p_nodup, ?_, ?_, ?_, ?_, h.no_uaf⟩
+  · intro x hx
+    obtain ⟨hx1, hx2⟩ := List.mem_filter.1 hx
+    have hx2 : x ≠ (c.exp, a) := by simpa using hx2
+    obtain ⟨cx, h1, h2, h3⟩ := h.t_live x hx1
+    have hxa : x.2 ≠ a := by
+      intro hh
+      rw [hh, hc] at h1; cases h1
+      exact hx2 (Prod.ext h2.symm hh)
+    refine ⟨cx, by show hfree s.heap a x.2 = _; rw [hfree_other _ hxa]; exact h1, h2, ?_⟩
+    refine List.mem_filter.2 ⟨h3, ?_⟩
+    simp only [ne_eq, decide_eq_true_eq]
+    intro hh; exact hxa (Prod.mk.inj hh).1
+  · intro p hp
+    obtain ⟨hp1, hp2⟩ := List.mem_filter.1 hp
+    have hp2 : p ≠ (a, q) := by simpa using hp2
+    obtain ⟨cx, h1, h2, h3⟩ := h.a_live p hp1
+    have hpa : p.1 ≠ a := by
+      intro hh
+      rw [hh, hc] at h1; cases h1
+      exact hp2 (Prod.ext hh (by rw [← h2, hq]))
+    refine ⟨cx, by show hfree s.heap a p.1 = _; rw [hfree_other _ hpa]; exact h1, h2, ?_⟩
+    refine List.mem_filter.2 ⟨h3, ?_⟩
+    simp only [ne_eq, decide_eq_true_eq]
+    intro hh; exact hpa (Prod.mk.inj hh).2
+  · intro x hx
+    obtain ⟨⟨cx, h1, h2⟩, h3⟩ := h.b_live x hx
+    have hxa : x.2 ≠ a := fun hh => h3 q (hh ▸ hm)
+    exact ⟨⟨cx, by show hfree s.heap a x.2 = _; rw [hfree_other _ hxa]; exact h1, h2⟩,
+      fun q' hq' => h3 q' (List.mem_filter.1 hq').1⟩
+  · intro x hx
+    obtain ⟨h1, h2, h3⟩ := h.p_live x hx
+    have hxa : x ≠ a := fun hh => h2 q (hh ▸ hm)
+    exact ⟨by show (hfree s.heap a x).isSome = true; rw [hfree_other _ hxa]; exact h1,
+      fun q' hq' => h2 q' (List.mem_filter.1 hq').1, h3⟩
+  · intro x cx hx
+    obtain ⟨hxa, hx'⟩ := hfree_some hx
+    rcases h.owned x cx hx' with h1 | h1 | h1
+    · refine Or.inl (List.mem_filter.2 ⟨h1, ?_⟩)
+      simp only [ne_eq, decide_eq_true_eq]
+      intro hh; exact hxa (Prod.mk.inj hh).1
+    · exact Or.inr (Or.inl h1)
+    · exact Or.inr (Or.inr h1)
+  · intro x cx hx; exact h.seq_le x cx (hfree_some hx).2
+  · intro x x' cx cx' hx hx' he; exact h.seq_inj x x' cx cx' (hfree_some hx).2 (hfree_some hx').2 he
+  · intro x cx hx; exact h.addr_ok x cx (hfree_some hx).2
+
+
+theorem WFp.timers_nodup (h : WFp s B L) : s.timers.Nodup :=
+  h.sorted.imp (fun {a b} hab heq => by subst heq; exact entryLt_irrefl _ hab)
+
+theorem WFp.timers_addr_inj (h : WFp s B L) {x y : Time × Addr} (hx : x ∈ s.timers) (hy : y ∈ s.timers)
+    (he : x.2 = y.2) : x = y := by
+  obtain ⟨cx, h1, h2, _⟩ := h.t_live x hx
+  obtain ⟨cy, g1, g2, _⟩ := h.t_live y hy
+  rw [he, g1] at h1; cases h1
+  exact Prod.ext (by rw [← h2, ← g2]) he
+
+/-- `getExpired`: the entries before the sentry leave both sets and form the batch -/
+theorem WFp.take (h : WFp s [] L) (p : Time × Addr → Bool) :
+    WFp { s with timers := s.timers.dropWhile p,
+                 active := s.active.filter (fun x => ¬ ∃ e ∈ s.timers.takeWhile p, x = (e.2, (cellAt s e.2).seq)) }
+      (s.timers.takeWhile p) L := by
+  have hsplit : s.timers.takeWhile p ++ s.timers.dropWhile p = s.timers := List.takeWhile_append_dropWhile
+  have hT : ∀ {x}, x ∈ s.timers.takeWhile p → x ∈ s.timers := fun hx => (List.takeWhile_sublist p).subset hx
+  have hD : ∀ {x}, x ∈ s.timers.dropWhile p → x ∈ s.timers := fun hx => (List.dropWhile_sublist p).subset hx
+  have hnd : (s.timers.takeWhile p ++ s.timers.dropWhile p).Nodup := by rw [hsplit]; exact h.timers_nodup
+  have hdisj : ∀ {x}, x ∈ s.timers.takeWhile p → x ∈ s.timers.dropWhile p → False :=
+    fun hx hy => (List.disjoint_of_nodup_append hnd) hx hy
+  refine ⟨?_, ?_, h.sorted.sublist (List.dropWhile_sublist p), h.a_nodup.filter _, ?_, ?_, ?_, h.p_nodup, ?_,
+    h.seq_le, h.seq_inj, h.addr_ok, h.no_uaf⟩
+  · intro x hx
+    obtain ⟨cx, h1, h2, h3⟩ := h.t_live x (hD hx)
+    refine ⟨cx, h1, h2, List.mem_filter.2 ⟨h3, ?_⟩⟩
+    simp only [decide_eq_true_eq]
+    rintro ⟨e, he, heq⟩
+    have := h.timers_addr_inj (hD hx) (hT he) (Prod.mk.inj heq).1
+    exact hdisj (this ▸ he) hx
+  · intro q hq
+    obtain ⟨hq1, hq2⟩ := List.mem_filter.1 hq
+    simp only [decide_eq_true_eq] at hq2
+    obtain ⟨cx, h1, h2, h3⟩ := h.a_live q hq1
+    refine ⟨cx, h1, h2, ?_⟩
+    rcases List.mem_append.1 (hsplit ▸ h3) with h4 | h4
+    · exact absurd ⟨(cx.exp, q.1), h4, Prod.ext rfl (by simp [cellAt, h1, h2])⟩ hq2
+    · exact h4
+  · intro e he
+    obtain ⟨ce, h1, h2, h3⟩ := h.t_live e (hT he)
+    refine ⟨⟨ce, h1, h2⟩, ?_⟩
+    intro q hq
+    obtain ⟨hq1, hq2⟩ := List.mem_filter.1 hq
+    simp only [decide_eq_true_eq] at hq2
+    obtain ⟨cx, g1, g2, _⟩ := h.a_live _ hq1
+    apply hq2
+    refine ⟨e, he, Prod.ext rfl ?_⟩
+    have g1 : s.heap e.2 = some cx := g1
+    simp [cellAt, g1, g2]
+  · refine List.Nodup.map_on ?_ (hnd.of_append_left)
+    intro x hx y hy hxy
+    exact h.timers_addr_inj (hT hx) (hT hy) hxy
+  · intro a ha
+    obtain ⟨h1, h2, _⟩ := h.p_live a ha
+    refine ⟨h1, fun q hq => h2 q (List.mem_filter.1 hq).1, ?_⟩
+    intro hm
+    obtain ⟨e, he, rfl⟩ := List.mem_map.1 hm
+    obtain ⟨ce, _, _, g3⟩ := h.t_live e (hT he)
+    exact h2 _ g3
+  · intro x cx hx
+    rcases h.owned x cx hx with h1 | h1 | h1
+    · by_cases hex : ∃ e ∈ s.timers.takeWhile p, (x, cx.seq) = (e.2, (cellAt s e.2).seq)
+      · obtain ⟨e, he, heq⟩ := hex
+        exact Or.inr (Or.inl (List.mem_map.2 ⟨e, he, (Prod.mk.inj heq).1.symm⟩))
+      · exact Or.inl (List.mem_filter.2 ⟨h1, by simpa using hex⟩)
+    · simp at h1
+    · exact Or.inr (Or.inr h1)
+
+
+/-! ### the state transformers the engine is made of, and the model functions as compositions of them -/
+
+def allocCell (s : TQ) (a : Addr) (c : Cell) : TQ := { s with heap := hset s.heap a c, numCreated := c.seq }
+def eraseT (s : TQ) (a : Addr) (q : Nat) (c : Cell) : TQ :=
+  { s with timers := s.timers.filter (fun e => e ≠ (c.exp, a)), active := s.active.filter (fun p => p ≠ (a, q)),
+           heap := hfree s.heap a }
+def remember (s : TQ) (a : Addr) (q : Nat) : TQ := { s with cancelling := (a, q) :: s.cancelling }
+def takeB (s : TQ) (p : Time × Addr → Bool) : TQ :=
+  { s with timers := s.timers.dropWhile p,
+           active := s.active.filter (fun x => ¬ ∃ e ∈ s.timers.takeWhile p, x = (e.2, (cellAt s e.2).seq)) }
+def setCell (s : TQ) (a : Addr) (c : Cell) : TQ := { s with heap := hset s.heap a c }
+def freeCell (s : TQ) (a : Addr) : TQ := { s with heap := hfree s.heap a }
+
+theorem isSome_of_eq {h : Addr → Option Cell} {a : Addr} {c : Cell} (hc : h a = some c) : (h a).isSome = true := by
+  rw [hc]; rfl
+
+theorem insertTimer_eq {a : Addr} {c : Cell} (hc : s.heap a = some c) :
+    insertTimer s a = (ins s a c, decide (insertEarliestChanged s.timers.isEmpty c.exp (firstExp s.timers))) := by
+  unfold insertTimer
+  simp only [chk_live (isSome_of_eq hc), cellAt_eq hc, ins]
+
+theorem addInLoop_eq {a : Addr} {c : Cell} (hc : s.heap a = some c) :
+    addInLoop s a =
+      if insertEarliestChanged s.timers.isEmpty c.exp (firstExp s.timers)
+      then armFd (ins (emit s (.registered a c.seq c.exp)) a c) c.exp
+      else ins (emit s (.registered a c.seq c.exp)) a c := by
+  have hc' : (emit s (.registered a c.seq c.exp)).heap a = some c := hc
+  unfold addInLoop
+  simp only [chk_live (isSome_of_eq hc), cellAt_eq hc, insertTimer_eq hc', addRearms, decide_eq_true_eq]
+  have hc'' : (ins (emit s (.registered a c.seq c.exp)) a c).heap a = some c := hc
+  simp only [chk_live (isSome_of_eq hc''), cellAt_eq hc'']
+  rfl
+
+theorem cancelInLoop_eq (id : TimerId) (hl : (id.addr, id.seq) ∈ s.active → (s.heap id.addr).isSome) :
+    cancelInLoop s id =
+      if (id.addr, id.seq) ∈ s.active then eraseT (emit s (.cancel id.addr id.seq s.calling)) id.addr id.seq (cellAt s id.addr)
+      else if s.calling = true then remember (emit s (.cancel id.addr id.seq s.calling)) id.addr id.seq
+      else emit s (.cancel id.addr id.seq s.calling) := by
+  unfold cancelInLoop
+  by_cases hm : (id.addr, id.seq) ∈ s.active
+  · have hl' : ((emit s (.cancel id.addr id.seq s.calling)).heap id.addr).isSome := hl hm
+    have hm' : (id.addr, id.seq) ∈ (emit s (.cancel id.addr id.seq s.calling)).active := hm
+    simp only [cancelErases, hm', decide_true, if_true, chk_live hl', if_pos hm]
+    rfl
+  · have hm' : (id.addr, id.seq) ∉ (emit s (.cancel id.addr id.seq s.calling)).active := hm
+    simp only [cancelErases, cancelRemembers, hm', decide_false, if_false, Bool.false_eq_true, not_false_eq_true,
+      true_and, if_neg hm]
+    rfl
+
+
+/-- `s'` differs from `s` only in what the environment supplies / what was consumed of it -/
+structure Frame (s s' : TQ) : Prop where
+  heap : s'.heap = s.heap
+  timers : s'.timers = s.timers
+  active : s'.active = s.active
+  numCreated : s'.numCreated = s.numCreated
+  calling : s'.calling = s.calling
+  cancelling : s'.cancelling = s.cancelling
+  alarm : s'.alarm = s.alarm
+  readable : s'.readable = s.readable
+  armedAt : s'.armedAt = s.armedAt
+  pending : s'.pending = s.pending
+  running : s'.running = s.running
+  vars : s'.vars = s.vars
+  scripts : s'.scripts = s.scripts
+  parked : s'.parked = s.parked
+  trace : s'.trace = s.trace
+
+theorem Frame.refl (s : TQ) : Frame s s := ⟨rfl, rfl, rfl, rfl, rfl, rfl, rfl, rfl, rfl, rfl, rfl, rfl, rfl, rfl, rfl⟩
+theorem Frame.trans {s s' s'' : TQ} (h : Frame s s') (h' : Frame s' s'') : Frame s s'' :=
+  ⟨h'.heap.trans h.heap, h'.timers.trans h.timers, h'.active.trans h.active, h'.numCreated.trans h.numCreated,
+   h'.calling.trans h.calling, h'.cancelling.trans h.cancelling, h'.alarm.trans h.alarm, h'.readable.trans h.readable,
+   h'.armedAt.trans h.armedAt, h'.pending.trans h.pending, h'.running.trans h.running, h'.vars.trans h.vars,
+   h'.scripts.trans h.scripts, h'.parked.trans h.parked, h'.trace.trans h.trace⟩
+
+theorem readNow_frame (s : TQ) : Frame s (readNow s).2 := by
+  unfold readNow; split <;> exact ⟨rfl, rfl, rfl, rfl, rfl, rfl, rfl, rfl, rfl, rfl, rfl, rfl, rfl, rfl, rfl⟩
+
+theorem deadlineOf_frame (s : TQ) (m : Mode) : Frame s (deadlineOf s m).2 := by
+  cases m <;> simp only [deadlineOf]
+  · exact Frame.refl s
+  · exact readNow_frame s
+  · exact readNow_frame s
+
+theorem allocTimer_spec (s : TQ) (name : Nat) (m : Mode) :
+    (∃ s', allocTimer s name m = (none, s') ∧ Frame s s') ∨
+    (∃ s1 a c, Frame s s1 ∧ s1.heap a = none ∧ (0 < a ∧ a < sentinelAddr) ∧ c.seq = s1.numCreated + 1 ∧ c.runs = 0 ∧
+      c.exp = c.first ∧ c.name = name ∧ allocTimer s name m = (some a, allocCell s1 a c)) := by
+  unfold allocTimer
+  split
+  · exact Or.inl ⟨s, rfl, Frame.refl s⟩
+  · have hf : Frame s (deadlineOf { s with started := name :: s.started } m).2 :=
+      Frame.trans (s' := { s with started := name :: s.started })
+        ⟨rfl, rfl, rfl, rfl, rfl, rfl, rfl, rfl, rfl, rfl, rfl, rfl, rfl, rfl, rfl⟩ (deadlineOf_frame _ m)
+    simp only []
+    split
+    · exact Or.inl ⟨_, rfl, Frame.trans hf ⟨rfl, rfl, rfl, rfl, rfl, rfl, rfl, rfl, rfl, rfl, rfl, rfl, rfl, rfl, rfl⟩⟩
+    · rename_i a rest hadd
+      split
+      · exact Or.inl ⟨_, rfl, Frame.trans hf ⟨rfl, rfl, rfl, rfl, rfl, rfl, rfl, rfl, rfl, rfl, rfl, rfl, rfl, rfl, rfl⟩⟩
+      · rename_i hok
+        simp only [not_or, not_not, Bool.not_eq_true, Option.isSome_eq_false_iff, Option.isNone_iff_eq_none] at hok
+        exact Or.inr ⟨{ (deadlineOf { s with started := name :: s.started } m).2 with addrs := rest }, a,
+          ⟨nextSequence (deadlineOf { s with started := name :: s.started } m).2.numCreated,
+            (deadlineOf { s with started := name :: s.started } m).1.1,
+            (deadlineOf { s with started := name :: s.started } m).1.2.1,
+            (deadlineOf { s with started := name :: s.started } m).1.2.2, name,
+            (deadlineOf { s with started := name :: s.started } m).1.1, 0⟩,
+          Frame.trans hf ⟨rfl, rfl, rfl, rfl, rfl, rfl, rfl, rfl, rfl, rfl, rfl, rfl, rfl, rfl, rfl⟩, hok.1,
+          ⟨Nat.pos_of_ne_zero hok.2.1, hok.2.2⟩, rfl, rfl, rfl, rfl, rfl⟩
+
+
+/-! ### small transformers: what they leave alone -/
+
+theorem readNow_fst_mem (s : TQ) : (readNow s).1 = (readNow s).2.clock := by
+  unfold readNow; split <;> rfl
+
+@[simp] theorem armFd_heap (s : TQ) (w : Time) : (armFd s w).heap = s.heap := (readNow_frame s).heap
+@[simp] theorem armFd_timers (s : TQ) (w : Time) : (armFd s w).timers = s.timers := (readNow_frame s).timers
+@[simp] theorem armFd_active (s : TQ) (w : Time) : (armFd s w).active = s.active := (readNow_frame s).active
+@[simp] theorem armFd_numCreated (s : TQ) (w : Time) : (armFd s w).numCreated = s.numCreated := (readNow_frame s).numCreated
+@[simp] theorem armFd_calling (s : TQ) (w : Time) : (armFd s w).calling = s.calling := (readNow_frame s).calling
+@[simp] theorem armFd_cancelling (s : TQ) (w : Time) : (armFd s w).cancelling = s.cancelling := (readNow_frame s).cancelling
+@[simp] theorem armFd_pending (s : TQ) (w : Time) : (armFd s w).pending = s.pending := (readNow_frame s).pending
+@[simp] theorem armFd_running (s : TQ) (w : Time) : (armFd s w).running = s.running := (readNow_frame s).running
+@[simp] theorem armFd_vars (s : TQ) (w : Time) : (armFd s w).vars = s.vars := (readNow_frame s).vars
+@[simp] theorem armFd_scripts (s : TQ) (w : Time) : (armFd s w).scripts = s.scripts := (readNow_frame s).scripts
+@[simp] theorem armFd_parked (s : TQ) (w : Time) : (armFd s w).parked = s.parked := (readNow_frame s).parked
+theorem armFd_trace (s : TQ) (w : Time) :
+    (armFd s w).trace = .arm ((howMuchTimeFromNow w (readNow s).1).1 * 1000000000 + (howMuchTimeFromNow w (readNow s).1).2)
+      (readNow s).1 :: s.trace := by
+  show _ :: (readNow s).2.trace = _
+  rw [(readNow_frame s).trace]
+  rfl
+
+theorem WFp.emit (h : WFp s B L) (e : Ev) (he : ∀ a, e ≠ .uaf a) : WFp (emit s e) B L :=
+  h.congr rfl rfl rfl rfl (by
+    intro a hm
+    rcases List.mem_cons.1 hm with h1 | h1
+    · exact he a h1.symm
+    · exact h.no_uaf a h1)
+
+theorem WFp.frame {s' : TQ} (h : WFp s B L) (f : Frame s s') : WFp s' B L :=
+  h.congr f.heap f.timers f.active f.numCreated (by rw [f.trace]; exact h.no_uaf)
+
+theorem WFp.armFd (h : WFp s B L) (w : Time) : WFp (armFd s w) B L :=
+  h.congr (armFd_heap s w) (armFd_timers s w) (armFd_active s w) (armFd_numCreated s w) (by
+    rw [armFd_trace]
+    intro a hm
+    rcases List.mem_cons.1 hm with h1 | h1
+    · cases h1
+    · exact h.no_uaf a h1)
+
+theorem WFp.bindId (h : WFp s B L) (name : Nat) (a : Addr) (q : Nat) : WFp (bindId s name a q) B L :=
+  WFp.emit (s := { s with vars := (name, ⟨a, q⟩) :: s.vars }) (h.congr rfl rfl rfl rfl h.no_uaf) _ (by intro x; simp)
+
+/-! ### the model functions preserve `WFp` -/
+
+theorem WFp.addInLoop {a : Addr} {c : Cell} (h : WFp s B (a :: L)) (hc : s.heap a = some c) : WFp (addInLoop s a) B L := by
+  rw [addInLoop_eq hc]
+  have h1 : WFp (Timer.ins (Timer.emit s (.registered a c.seq c.exp)) a c) B L :=
+    WFp.ins (h.emit _ (by intro x; simp)) hc
+  split
+  · exact h1.armFd _
+  · exact h1
+
+theorem WFp.cancelInLoop (h : WFp s B L) (id : TimerId) : WFp (cancelInLoop s id) B L := by
+  have hl : (id.addr, id.seq) ∈ s.active → (s.heap id.addr).isSome := by
+    intro hm
+    obtain ⟨c, h1, _⟩ := h.a_live _ hm
+    exact isSome_of_eq h1
+  rw [cancelInLoop_eq id hl]
+  have he : WFp (Timer.emit s (.cancel id.addr id.seq s.calling)) B L := h.emit _ (by intro x; simp)
+  split
+  · rename_i hm
+    obtain ⟨c, h1, _⟩ := h.a_live _ hm
+    rw [cellAt_eq h1]
+    exact he.erase hm h1
+  · split
+    · exact he.congr rfl rfl rfl rfl he.no_uaf
+    · exact he
+
+theorem addL_spec (s : TQ) (name : Nat) (m : Mode) :
+    Frame s (addL s name m) ∨
+    (∃ s1 a c, Frame s s1 ∧ s1.heap a = none ∧ (0 < a ∧ a < sentinelAddr) ∧ c.seq = s1.numCreated + 1 ∧ c.runs = 0 ∧
+      c.exp = c.first ∧ c.name = name ∧ addL s name m = bindId (addInLoop (allocCell s1 a c) a) name a c.seq) := by
+  rcases allocTimer_spec s name m with ⟨s', h1, h2⟩ | ⟨s1, a, c, h1, h2, h3, h4, h5, h6, h7, h8⟩
+  · left; unfold addL; rw [h1]; exact h2
+  · right
+    refine ⟨s1, a, c, h1, h2, h3, h4, h5, h6, h7, ?_⟩
+    unfold addL; rw [h8]
+    simp [addTimerDerefsAfterHandOver, cellAt, allocCell, hset_same]
+
+theorem allocCell_heap (s : TQ) (a : Addr) (c : Cell) : (allocCell s a c).heap a = some c := hset_same _ _ _
+
+theorem WFp.addL (h : WFp s B L) (name : Nat) (m : Mode) : WFp (addL s name m) B L := by
+  rcases addL_spec s name m with hf | ⟨s1, a, c, h1, h2, h3, h4, h5, h6, h7, h8⟩
+  · exact h.frame hf
+  · rw [h8]
+    exact (((h.frame h1).alloc h2 h3 h4).addInLoop (allocCell_heap s1 a c)).bindId _ _ _
+
+theorem WFp.execAct (h : WFp s B L) (act : Act) : WFp (execAct s act) B L := by
+  cases act with
+  | add name m => exact h.addL name m
+  | cancel v => exact h.cancelInLoop _
+
+theorem foldl_inv {α β : Type} (P : α → Prop) (f : α → β → α) (l : List β) (a : α) (h0 : P a)
+    (hstep : ∀ a b, b ∈ l → P a → P (f a b)) : P (l.foldl f a) := by
+  induction l generalizing a with
+  | nil => exact h0
+  | cons x xs ih =>
+    exact ih (f a x) (hstep a x List.mem_cons_self h0) (fun a b hb => hstep a b (List.mem_cons_of_mem _ hb))
+
+theorem runTimer_eq {now : Time} {e : Time × Addr} {c : Cell} (hc : s.heap e.2 = some c) :
+    runTimer now s e = (scriptFor s.scripts c.name (c.runs + 1)).foldl execAct
+      (emit s (.run c.name c.seq (c.runs + 1) e.2 c.rep c.first c.delta e.1 now s.clock)) := by
+  unfold runTimer
+  simp only [chk_live (isSome_of_eq hc), cellAt_eq hc]
+  rfl
+
+theorem WFp.runTimer (h : WFp s B L) (now : Time) {e : Time × Addr} (he : e ∈ B) : WFp (runTimer now s e) B L := by
+  obtain ⟨⟨c, hc, _⟩, _⟩ := h.b_live e he
+  rw [runTimer_eq hc]
+  exact foldl_inv (fun s => WFp s B L) _ _ _ (h.emit _ (by intro x; simp)) (fun s act _ hs => hs.execAct act)
+
+
+theorem foldl_chk_live (l : List (Time × Addr)) (s : TQ) (h : ∀ e ∈ l, (s.heap e.2).isSome) :
+    l.foldl (fun s e => chk s e.2) s = s := by
+  induction l with
+  | nil => rfl
+  | cons x xs ih =>
+    rw [List.foldl_cons, chk_live (h x List.mem_cons_self)]
+    exact ih (fun e he => h e (List.mem_cons_of_mem _ he))
+
+theorem getExpired_eq (h : WFp s B L) (now : Time) :
+    getExpired s now = (s.timers.takeWhile (isExpired now), takeB s (isExpired now)) := by
+  unfold getExpired
+  simp only []
+  rw [foldl_chk_live]
+  · rfl
+  · intro e he
+    obtain ⟨c, h1, _⟩ := h.t_live e ((List.takeWhile_sublist _).subset he)
+    exact isSome_of_eq h1
+
+/-- the cell of a repeating timer after `restart(now)` -/
+def restarted (c : Cell) (now : Time) : Cell := { c with exp := restart c.rep now c.delta, runs := c.runs + 1 }
+
+theorem resetOne_eq {now : Time} {e : Time × Addr} {c : Cell} (hc : s.heap e.2 = some c) :
+    resetOne now s e =
+      if resetRestarts c.rep (decide ((e.2, c.seq) ∈ s.cancelling))
+      then ins (emit (setCell s e.2 (restarted c now)) (.restarted e.2 c.seq (restarted c now).exp)) e.2 (restarted c now)
+      else freeCell s e.2 := by
+  unfold resetOne
+  simp only [chk_live (isSome_of_eq hc), cellAt_eq hc]
+  split
+  · have : (emit { s with heap := hset s.heap e.2 { c with exp := restart c.rep now c.delta, runs := c.runs + 1 } }
+        (.restarted e.2 c.seq (restart c.rep now c.delta))).heap e.2 = some (restarted c now) := hset_same _ _ _
+    rw [insertTimer_eq this]
+    rfl
+  · rfl
+
+theorem WFp.resetOne {e : Time × Addr} (h : WFp s (e :: B) L) (now : Time) : WFp (resetOne now s e) B L := by
+  obtain ⟨⟨c, hc, _⟩, _⟩ := h.b_live e List.mem_cons_self
+  rw [resetOne_eq hc]
+  split
+  · exact WFp.ins ((h.b_to_l (c' := restarted c now) hc rfl).emit _ (by intro x; simp)) (hset_same _ _ _)
+  · exact h.drop
+
+theorem WFp.resetFold (now : Time) (l : List (Time × Addr)) (s : TQ) (h : WFp s l L) :
+    WFp (l.foldl (Timer.resetOne now) s) [] L := by
+  induction l generalizing s with
+  | nil => exact h
+  | cons x xs ih => exact ih _ (h.resetOne now)
+
+theorem rearm_eq (h : WFp s B L) :
+    rearm s = match s.timers with
+      | [] => s
+      | e :: _ => if 0 < e.1 then armFd s e.1 else s := by
+  unfold rearm
+  cases ht : s.timers with
+  | nil => simp [resetHasNext, resetRearms, timestampValid, timestampInvalid]
+  | cons e r =>
+    obtain ⟨c, h1, h2, _⟩ := h.t_live e (by rw [ht]; exact List.mem_cons_self)
+    simp only [resetHasNext, List.isEmpty_cons, Bool.false_eq_true, not_false_eq_true, if_true, resetRearms,
+      timestampValid, chk_live (isSome_of_eq h1), cellAt_eq h1, h2]
+
+theorem WFp.rearm (h : WFp s B L) : WFp (rearm s) B L := by
+  rw [rearm_eq h]
+  split
+  · exact h
+  · split
+    · exact h.armFd _
+    · exact h
+
+theorem WFp.handleRead (h : WFp s [] L) : WFp (Timer.handleRead s) [] L := by
+  unfold Timer.handleRead
+  simp only []
+  have h0 : WFp { (readNow s).2 with readable := false } [] L :=
+    (h.frame (readNow_frame s)).congr rfl rfl rfl rfl (h.frame (readNow_frame s)).no_uaf
+  rw [getExpired_eq h0]
+  simp only []
+  have h1 := h0.take (isExpired (readNow s).1)
+  have h2 : WFp { takeB { (readNow s).2 with readable := false } (isExpired (readNow s).1) with
+      calling := true, cancelling := [] } _ L := h1.congr rfl rfl rfl rfl h1.no_uaf
+  have h3 := foldl_inv (fun s' => WFp s' (List.takeWhile (isExpired (readNow s).1) (readNow s).2.timers) L) (Timer.runTimer (readNow s).1)
+    _ _ h2 (fun s' e he hs => hs.runTimer _ he)
+  refine WFp.rearm (WFp.resetFold _ _ _ ?_)
+  exact h3.congr rfl rfl rfl rfl h3.no_uaf
+
+
+/-! ### what the functions that run on the loop thread leave alone (no hypotheses) -/
+
+/-- what a `run` event records (all but the clock) -/
+structure RunRec where
+  name : Nat
+  seq : Nat
+  k : Nat
+  addr : Addr
+  rep : Bool
+  first : Time
+  delta : Int
+  exp : Time
+  now : Time
+deriving DecidableEq, Repr
+
+def runRec : Ev → Option RunRec
+  | .run name seq k addr rep first delta exp now _ => some ⟨name, seq, k, addr, rep, first, delta, exp, now⟩
+  | _ => none
+
+/-- the callback runs a trace records, newest first -/
+def runRecs (t : List Ev) : List RunRec := t.filterMap runRec
+
+theorem runRecs_cons (e : Ev) (t : List Ev) : runRecs (e :: t) = (runRec e).toList ++ runRecs t := by
+  unfold runRecs; rw [List.filterMap_cons]; cases runRec e <;> rfl
+
+/-- `s'` is a later state reached without queueing anything: same functor queues, same batch flag, the trace only grew -/
+structure ExtW (s s' : TQ) : Prop where
+  pending : s'.pending = s.pending
+  running : s'.running = s.running
+  calling : s'.calling = s.calling
+  scripts : s'.scripts = s.scripts
+  parked : s'.parked = s.parked
+  trace : s.trace <:+ s'.trace
+  numCreated : s.numCreated ≤ s'.numCreated
+
+/-- ... and without running a callback -/
+structure Ext (s s' : TQ) : Prop extends ExtW s s' where
+  runs : runRecs s'.trace = runRecs s.trace
+
+theorem ExtW.refl (s : TQ) : ExtW s s := ⟨rfl, rfl, rfl, rfl, rfl, List.suffix_refl _, Nat.le_refl _⟩
+theorem ExtW.trans {s s' s'' : TQ} (h : ExtW s s') (h' : ExtW s' s'') : ExtW s s'' :=
+  ⟨h'.pending.trans h.pending, h'.running.trans h.running, h'.calling.trans h.calling, h'.scripts.trans h.scripts,
+   h'.parked.trans h.parked, h.trace.trans h'.trace, Nat.le_trans h.numCreated h'.numCreated⟩
+theorem Ext.refl (s : TQ) : Ext s s := ⟨ExtW.refl s, rfl⟩
+theorem Ext.trans {s s' s'' : TQ} (h : Ext s s') (h' : Ext s' s'') : Ext s s'' :=
+  ⟨h.toExtW.trans h'.toExtW, h'.runs.trans h.runs⟩
+/-- same but for the fields named -/
+theorem Ext.same {s s' : TQ} (h1 : s'.pending = s.pending) (h2 : s'.running = s.running) (h3 : s'.calling = s.calling)
+    (h4 : s'.scripts = s.scripts) (h5 : s'.parked = s.parked) (h6 : s'.trace = s.trace)
+    (h7 : s'.numCreated = s.numCreated) : Ext s s' :=
+  ⟨⟨h1, h2, h3, h4, h5, by rw [h6]; exact List.suffix_refl _, by rw [h7]⟩, by rw [h6]⟩
+theorem Frame.ext {s s' : TQ} (h : Frame s s') : Ext s s' :=
+  Ext.same h.pending h.running h.calling h.scripts h.parked h.trace h.numCreated
+
+theorem emit_ext (s : TQ) (e : Ev) (he : runRec e = none) : Ext s (emit s e) :=
+  ⟨⟨rfl, rfl, rfl, rfl, rfl, List.suffix_cons _ _, Nat.le_refl _⟩, by
+    show runRecs (e :: s.trace) = _; rw [runRecs_cons, he]; rfl⟩
+theorem emit_extW (s : TQ) (e : Ev) : ExtW s (emit s e) := ⟨rfl, rfl, rfl, rfl, rfl, List.suffix_cons _ _, Nat.le_refl _⟩
+theorem chk_ext (s : TQ) (a : Addr) : Ext s (chk s a) := by
+  unfold chk; split
+  · exact Ext.refl s
+  · exact emit_ext s _ rfl
+theorem armFd_ext (s : TQ) (w : Time) : Ext s (armFd s w) :=
+  ⟨⟨armFd_pending s w, armFd_running s w, armFd_calling s w, armFd_scripts s w, armFd_parked s w,
+   by rw [armFd_trace]; exact List.suffix_cons _ _, by rw [armFd_numCreated]⟩, by
+    rw [armFd_trace, runRecs_cons]; rfl⟩
+theorem insertTimer_ext (s : TQ) (a : Addr) : Ext s (insertTimer s a).1 :=
+  (chk_ext s a).trans (Ext.same rfl rfl rfl rfl rfl rfl rfl)
+theorem addInLoop_ext (s : TQ) (a : Addr) : Ext s (addInLoop s a) := by
+  unfold addInLoop
+  have h1 := ((chk_ext s a).trans (emit_ext _ (.registered a (cellAt s a).seq (cellAt s a).exp) rfl)).trans
+    (insertTimer_ext _ a)
+  simp only []
+  split
+  · exact h1.trans ((chk_ext _ a).trans (armFd_ext _ _))
+  · exact h1
+theorem cancelInLoop_ext (s : TQ) (id : TimerId) : Ext s (cancelInLoop s id) := by
+  unfold cancelInLoop
+  simp only []
+  split
+  · exact ((emit_ext s _ rfl).trans (chk_ext _ _)).trans (Ext.same rfl rfl rfl rfl rfl rfl rfl)
+  · split
+    · exact (emit_ext s _ rfl).trans (Ext.same rfl rfl rfl rfl rfl rfl rfl)
+    · exact emit_ext s _ rfl
+theorem bindId_ext (s : TQ) (name : Nat) (a : Addr) (q : Nat) : Ext s (bindId s name a q) :=
+  Ext.trans (s' := { s with vars := (name, ⟨a, q⟩) :: s.vars }) (Ext.same rfl rfl rfl rfl rfl rfl rfl)
+    (emit_ext _ _ rfl)
+theorem addL_ext (s : TQ) (name : Nat) (m : Mode) : Ext s (addL s name m) := by
+  rcases addL_spec s name m with hf | ⟨s1, a, c, h1, _, _, h4, _, _, _, h8⟩
+  · exact hf.ext
+  · rw [h8]
+    refine h1.ext.trans (Ext.trans (s' := allocCell s1 a c) ?_ ((addInLoop_ext _ a).trans (bindId_ext _ _ _ _)))
+    exact ⟨⟨rfl, rfl, rfl, rfl, rfl, List.suffix_refl _, by show s1.numCreated ≤ c.seq; omega⟩, rfl⟩
+theorem execAct_ext (s : TQ) (act : Act) : Ext s (execAct s act) := by
+  cases act with
+  | add name m => exact addL_ext s name m
+  | cancel v => exact cancelInLoop_ext s _
+theorem foldl_ext {β : Type} (f : TQ → β → TQ) (hf : ∀ s b, Ext s (f s b)) (l : List β) (s : TQ) : Ext s (l.foldl f s) := by
+  induction l generalizing s with
+  | nil => exact Ext.refl s
+  | cons x xs ih => exact (hf s x).trans (ih _)
+theorem foldl_extW {β : Type} (f : TQ → β → TQ) (hf : ∀ s b, ExtW s (f s b)) (l : List β) (s : TQ) :
+    ExtW s (l.foldl f s) := by
+  induction l generalizing s with
+  | nil => exact ExtW.refl s
+  | cons x xs ih => exact (hf s x).trans (ih _)
+theorem runTimer_extW (now : Time) (s : TQ) (e : Time × Addr) : ExtW s (runTimer now s e) := by
+  unfold runTimer
+  exact ((chk_ext s e.2).toExtW.trans (emit_extW _ _)).trans (foldl_ext _ execAct_ext _ _).toExtW
+theorem resetOne_ext (now : Time) (s : TQ) (e : Time × Addr) : Ext s (resetOne now s e) := by
+  unfold resetOne
+  simp only []
+  split
+  · refine (chk_ext s e.2).trans (Ext.trans ?_ (insertTimer_ext _ _))
+    exact Ext.trans (s' := { chk s e.2 with heap := hset (chk s e.2).heap e.2 _ })
+      (Ext.same rfl rfl rfl rfl rfl rfl rfl) (emit_ext _ _ rfl)
+  · exact (chk_ext s e.2).trans (Ext.same rfl rfl rfl rfl rfl rfl rfl)
+theorem rearm_ext (s : TQ) : Ext s (rearm s) := by
+  unfold rearm
+  have hr : ∀ r : Time × TQ, Ext s r.2 → Ext s (if resetRearms r.1 then armFd r.2 r.1 else r.2) := by
+    intro r h; split
+    · exact h.trans (armFd_ext _ _)
+    · exact h
+  apply hr
+  split
+  · split
+    · exact chk_ext s _
+    · exact Ext.refl s
+  · exact Ext.refl s
+theorem getExpired_ext (s : TQ) (now : Time) : Ext s (getExpired s now).2 := by
+  unfold getExpired
+  simp only []
+  exact (foldl_ext _ (fun (s : TQ) (e : Time × Addr) => chk_ext s e.2) _ _).trans (Ext.same rfl rfl rfl rfl rfl rfl rfl)
+theorem reset_ext (s : TQ) (l : List (Time × Addr)) (now : Time) : Ext s (reset s l now) := by
+  unfold reset
+  exact (foldl_ext _ (resetOne_ext now) _ _).trans (rearm_ext _)
+
+/-- `handleRead` (the batch flag is cleared at the end) -/
+theorem handleRead_extW (s : TQ) (hc : s.calling = false) : ExtW s (handleRead s) := by
+  unfold handleRead
+  simp only []
+  have h1 : Ext s { (readNow s).2 with readable := false } :=
+    (readNow_frame s).ext.trans (Ext.same rfl rfl rfl rfl rfl rfl rfl)
+  have h2 := (h1.trans (getExpired_ext _ (readNow s).1)).toExtW
+  generalize (getExpired { (readNow s).2 with readable := false } (readNow s).1) = g at h2
+  have h3 := foldl_extW _ (runTimer_extW (readNow s).1) g.1 { g.2 with calling := true, cancelling := [] }
+  generalize List.foldl (runTimer (readNow s).1) { g.2 with calling := true, cancelling := [] } g.1 = s3 at h3
+  have h4 : ExtW s { s3 with calling := false } :=
+    ⟨by show s3.pending = _; rw [h3.pending]; exact h2.pending, by show s3.running = _; rw [h3.running]; exact h2.running,
+     hc.symm, by show s3.scripts = _; rw [h3.scripts]; exact h2.scripts,
+     by show s3.parked = _; rw [h3.parked]; exact h2.parked,
+     h2.trace.trans h3.trace, Nat.le_trans h2.numCreated h3.numCreated⟩
+  exact h4.trans (reset_ext _ _ _).toExtW
 
 end MuduoVerif.Timer
